@@ -10,14 +10,14 @@ RULES = {
     "C03": [("sa.rules.b1", "r_C03a"), ("sa.rules.b6", "r_C03bc"), ("sa.rules.b3", "r_C03de_C11a_C17bc"), ("sa.rules.c03", "r_C03fgh")],
     "C04": [("sa.rules.b2", "r_C04"), ("sa.rules.c04", "r_C04a"), ("sa.rules.c01", "r_C01ef")],
     "C05": [("sa.rules.b3", "r_C05_C10"), ("sa.rules.c05", "r_C05cde")],
-    "C06": [("sa.rules.b7", "r_origin")],
+    "C06": [("sa.rules.b7", "r_origin"), ("sa.rules.cmisc", "r_C06bcd")],
     "C07": [("sa.rules.b3", "r_C07"), ("sa.rules.b6", "r_C03bc"), ("sa.rules.c03", "r_C03fgh"), ("sa.rules.c05", "r_C07c"), ("sa.rules.c05", "r_none_tests")],
     "C08": [("sa.rules.b3", "r_C08_C34"), ("sa.rules.b3", "r_C02cd"), ("sa.rules.c08", "r_C08bc")],
-    "C09": [("sa.rules.b3", "r_C09")],
-    "C10": [("sa.rules.b3", "r_C05_C10"), ("sa.rules.c05", "r_none_tests")],
-    "C11": [("sa.rules.b3", "r_C03de_C11a_C17bc"), ("sa.rules.c11", "r_C11b"), ("sa.rules.c05", "r_none_tests")],
-    "C12": [("sa.rules.b1", "r_C12a"), ("sa.rules.c12", "r_C12b"), ("sa.rules.c05", "r_C12c")],
-    "C13": [("sa.rules.b3", "r_C13")],
+    "C09": [("sa.rules.b3", "r_C09"), ("sa.rules.b3", "r_C07"), ("sa.rules.cmisc", "r_C13d_C34f_C09d")],
+    "C10": [("sa.rules.b3", "r_C05_C10"), ("sa.rules.c05", "r_none_tests"), ("sa.rules.cmisc", "r_C10e")],
+    "C11": [("sa.rules.b3", "r_C03de_C11a_C17bc"), ("sa.rules.c11", "r_C11b"), ("sa.rules.c11", "r_C11de"), ("sa.rules.c05", "r_none_tests")],
+    "C12": [("sa.rules.b1", "r_C12a"), ("sa.rules.c12", "r_C12b"), ("sa.rules.c05", "r_C12c"), ("sa.rules.c11", "r_C11de")],
+    "C13": [("sa.rules.b3", "r_C13"), ("sa.rules.cmisc", "r_C13d_C34f_C09d")],
     "C14": [("sa.rules.b4", "r_ledger"), ("sa.rules.b1", "r_C14c"), ("sa.rules.c14", "r_ledger2"), ("sa.rules.b3", "r_C13")],
     "C15": [("sa.rules.b4", "r_ledger"), ("sa.rules.c14", "r_ledger2")],
     "C16": [("sa.rules.b3", "r_C16a"), ("sa.rules.c14", "r_ledger2"), ("sa.rules.c16", "r_cachekeys")],
@@ -32,13 +32,13 @@ RULES = {
     "C25": [("sa.rules.b2", "r_C25")],
     "C26": [("sa.rules.b2", "r_C26a"), ("sa.rules.b2", "r_C26bcdef")],
     "C27": [("sa.rules.b1", "r_C27")],
-    "C28": [("sa.rules.b7", "r_origin"), ("sa.rules.b3", "r_C28b_C33b_C30bc")],
+    "C28": [("sa.rules.b7", "r_origin"), ("sa.rules.b3", "r_C28b_C33b_C30bc"), ("sa.rules.c08", "r_C08bc"), ("sa.rules.cmisc", "r_C06bcd")],
     "C29": [("sa.rules.b5", "r_C29")],
     "C30": [("sa.rules.b1", "r_C30a"), ("sa.rules.b3", "r_C28b_C33b_C30bc")],
     "C31": [("sa.rules.b4", "r_ledger"), ("sa.rules.c14", "r_ledger2")],
     "C32": [("sa.rules.b1", "r_C32a")],
     "C33": [("sa.rules.b1", "r_C33a"), ("sa.rules.b3", "r_C28b_C33b_C30bc")],
-    "C34": [("sa.rules.b3", "r_C08_C34")],
+    "C34": [("sa.rules.b3", "r_C08_C34"), ("sa.rules.cmisc", "r_C13d_C34f_C09d")],
 }
 
 # findings of one property that are *also* reported under another (same defect, two properties)
@@ -50,6 +50,10 @@ ALSO = {
     # C14: "__init__ ... runs before any object processor" is the ordering clause C13.a; instrumentation/storage clauses of C15
     "C14": {"C13": ("C13.a",), "C15": ("C15.c", "C15.d", "C15.e", "C15.f")},
     "C15": {"C14": ("C14.a", "C14.f", "C14.e"), "C18": ("C18.c", "C18.d", "C18.f")},
+    # C09 "a Postponed result is never bound/stored": the builtins fallback clause of C07.b
+    "C09": {"C07": ("C07.b",)},
+    # error locations of list references come from the element positions (C08.c); line/col arithmetic (C06.d)
+    "C28": {"C08": ("C08.c",), "C06": ("C06.c", "C06.d")},
     # base type conversion: with use_regexp_group the converted text is decided by C01.g
     "C04": {"C01": ("C01.g",)},
     # C01.c (rule modifiers on an expression that ignores them) is the whitespace clause of C22 as well
